@@ -1006,6 +1006,15 @@ func (s *Server) handleDecline(req *dhcpv4.DHCPv4) {
 	}
 	s.leasesMu.Unlock()
 
+	// Remove from circuit-ID secondary index, or a relayed DISCOVER would find
+	// the stale lease there and be offered the declined address again
+	if exists && len(lease.CircuitID) > 0 {
+		cidKey := hex.EncodeToString(lease.CircuitID)
+		s.leasesByCircuitIDMu.Lock()
+		delete(s.leasesByCircuitID, cidKey)
+		s.leasesByCircuitIDMu.Unlock()
+	}
+
 	if exists && lease != nil {
 		if pool := s.poolMgr.GetPool(lease.PoolID); pool != nil {
 			pool.MarkUnavailable(declinedIP)
